@@ -547,8 +547,8 @@ func checkChangingErr(c ChangingErrCase, cv *cov) (v *evid.Violation) {
 	}
 	pa, pb := faultio.Plan{ErrKind: c.KA}, faultio.Plan{ErrKind: c.KB}
 	errA, errB := pa.Err(), pb.Err()
-	if errors.Is(errB, errA) || errors.Is(errA, errB) {
-		return nil // the two must be tellable apart
+	if errors.Is(errA, errB) {
+		return nil // the second failure must be tellable from the first: B may well wrap A (a teardown error wrapping io.EOF after a bare io.EOF), but A must not match B
 	}
 	if c.Fn == "field" && (c.Cut1 == 0 || c.Cut2 == 0) {
 		// fine
